@@ -110,7 +110,7 @@ for iw in (15, 31):
 # (c) HMAC with hidden length
 HM = ["src/mac/hmac_ct.c", "src/codec/ccopy.c"]
 entry("hmac_outCT", "C08_hmac.c", HM, ["br_hmac_outCT"],
-      [S("stub-0-40", 70, MINLEN=0, MAXLEN=40), S("stub-13-77", 140, MINLEN=13, MAXLEN=77),
+      [S("stub-50-60", 140, MINLEN=50, MAXLEN=60), S("stub-0-40", 70, MINLEN=0, MAXLEN=40), S("stub-13-77", 140, MINLEN=13, MAXLEN=77),
        S("stub-60-200", 300, MINLEN=60, MAXLEN=200, tier="thorough")],
       quick_opts=OPTS, desc="br_hmac_outCT over a stub Merkle-Damgard hash class",
       secret="len within [min_len,max_len], data bytes, hash state, kso", public="min_len, max_len, addresses, hash class")
